@@ -231,6 +231,10 @@ func samePub(a, b any) bool {
 type params struct {
 	router   opfix.Router
 	flow     string
+	cid      string // the client: "web" or "desk" (same registration under another id)
+	issuer   string // the issuer of this case's requests
+	dynIssuer bool  // provider built with op.IssuerFromHost: the issuer is derived from every request
+	customs  []string // the custom:<name> scopes added to the request (claim-name dimension)
 	key      int
 	mat      int  // which of the algorithm's two key materials signs
 	sharedKid bool // kid "sig-1" (shared by every algorithm) instead of "sig-<alg>"
@@ -272,7 +276,8 @@ const (
 
 var flows = []string{"code", "implicit_id", "implicit_tok", "refresh", "device", "cc", "jwt_bearer", "te_access", "te_refresh", "te_id"}
 
-var subjects = []string{"alice", "bob", "alice", "tenant:alice", "a:b:c", ":lead", "trail:", "nobody", "user@example.com"}
+var subjects = []string{"alice", "bob", "alice", "tenant:alice", "a:b:c", ":lead", "trail:", "nobody", "user@example.com",
+	"Alice", "alice ", " bob", "null", "de\u017fk", "0"} // case / white-space neighbours of other subjects, keyword-like values
 
 var scopeSets = [][]string{
 	{"openid"},
@@ -321,8 +326,147 @@ func subset(r drv.Rand, l []string) []string {
 	return out
 }
 
-func gen(r drv.Rand, i int, nKeys int) params {
+// ---- near misses of an identifier (client id in audiences): case variants, Unicode
+// simple-fold variants (U+017F long s for s, U+212A Kelvin sign for k), white space
+// around it, trailing slash. None of them is the identifier.
+func nearMisses(id string) []string {
+	out := []string{strings.ToUpper(id), strings.ToUpper(id[:1]) + id[1:], id[:len(id)-1] + strings.ToUpper(id[len(id)-1:]),
+		id + " ", " " + id, id + "/", id + "\t", id + "\n", id + "%20", id + "+"}
+	if strings.ContainsAny(id, "sS") {
+		out = append(out, strings.NewReplacer("s", "\u017f", "S", "\u017f").Replace(id))
+	}
+	if strings.ContainsAny(id, "kK") {
+		out = append(out, strings.NewReplacer("k", "\u212a", "K", "\u212a").Replace(id))
+	}
+	return out
+}
+
+// foldVariants: names that differ from name only by case folding: ASCII case (first list) and
+// the Unicode simple folds U+017F long s = s, U+212A Kelvin sign = k (second list).
+func foldVariants(name string) (ascii, unicode []string) {
+	ascii = []string{strings.ToUpper(name), strings.ToUpper(name[:1]) + name[1:], name[:len(name)-1] + strings.ToUpper(name[len(name)-1:])}
+	for i, c := range name {
+		switch c {
+		case 's':
+			unicode = append(unicode, name[:i]+"\u017f"+name[i+1:], strings.ToUpper(name[:i])+"\u017f"+name[i+1:])
+		case 'k':
+			unicode = append(unicode, name[:i]+"\u212a"+name[i+1:], name[:i]+"\u212a"+strings.ToUpper(name[i+1:]))
+		}
+	}
+	if strings.Count(name, "s") > 1 {
+		unicode = append(unicode, strings.ReplaceAll(name, "s", "\u017f"))
+	}
+	return
+}
+
+func pickVariant(r drv.Rand, name string) string {
+	a, u := foldVariants(name)
+	if len(u) > 0 && r.Chance(3, 5) {
+		return drv.Pick(r, u)
+	}
+	return drv.Pick(r, a)
+}
+
+// audienceFor: what a storage may define as the audience of a request of client cid.
+// nil = the storage's default.
+func audienceFor(r drv.Rand, cid string) []string {
+	const api = "https://api.example.com"
+	near := func() string { return drv.Pick(r, nearMisses(cid)) }
+	switch r.IntN(12) {
+	case 0:
+		return []string{api}
+	case 1:
+		return []string{api, cid}
+	case 2:
+		return []string{}
+	case 3:
+		return []string{near()}
+	case 4:
+		return []string{near(), api}
+	case 5:
+		return []string{api, near(), near()}
+	case 6:
+		return []string{near(), cid}
+	case 7:
+		return []string{cid, near(), cid}
+	}
+	return nil
+}
+
+// customNameScopes: the claim-name dimension. The storage turns a scope custom:<n> into the
+// claim <n> (private claim of a JWT access token, userinfo claim of an ID token); <n> is any
+// string. Drawn here: exact names, ASCII-case variants and Unicode simple-fold variants of the
+// registered claim names THIS case's tokens are certain to carry (a variant of a member that
+// is not written would be read as that member by encoding/json - the storage asserting, say,
+// its own nonce; not generated), near misses that fold to no member, and names of members
+// that neither token type decodes into an observed field (sid, scope).
+func customNameScopes(r drv.Rand, p params) []string {
+	atCarries := p.jwtAT && (p.flow == "code" || p.flow == "implicit_tok" || p.flow == "refresh" || p.flow == "device" || p.flow == "cc")
+	authFlow := p.flow == "code" || p.flow == "implicit_id" || p.flow == "implicit_tok"
+	base := []string{"iss", "sub", "aud", "exp", "iat", "client_id"}
+	if !atCarries {
+		base = append(base, "azp")
+		if authFlow && p.nonce != "" {
+			base = append(base, "nonce")
+		}
+		if authFlow && p.acr != "" {
+			base = append(base, "acr")
+		}
+		if p.flow == "code" || p.flow == "implicit_tok" || p.flow == "refresh" || p.flow == "device" {
+			base = append(base, "at_hash")
+		}
+		if p.flow == "code" {
+			base = append(base, "c_hash")
+		}
+		if (authFlow || p.flow == "refresh") && p.authAgo >= 0 {
+			base = append(base, "auth_time")
+		}
+		if (authFlow || p.flow == "refresh") && (p.amr == nil || len(p.amr) > 0) {
+			base = append(base, "amr")
+		}
+	}
+	if p.flow == "cc" {
+		base = append(base, "nbf", "jti")
+	}
+	names := []string{}
+	for n := 1 + r.IntN(2); n > 0; n-- {
+		b := drv.Pick(r, base)
+		if r.Chance(1, 3) {
+			b = drv.Pick(r, []string{"iss", "sub", "client_id"}) // members with an s / a k in their name
+		}
+		switch r.IntN(8) {
+		case 0:
+			names = append(names, b) // the exact name: the registered value wins
+		case 1:
+			names = append(names, drv.Pick(r, []string{b + "2", b[:len(b)-1], "x" + b, b + "_", strings.ToUpper(b) + "S", "tenant", "\u017f", "\u212a"})) // folds to no member
+		case 2:
+			names = append(names, pickVariant(r, drv.Pick(r, []string{"sid", "scope"})))
+		default:
+			names = append(names, pickVariant(r, b))
+		}
+	}
+	out := []string{}
+	for _, n := range names {
+		if sc := "custom:" + n; !contains(out, sc) {
+			out = append(out, sc)
+		}
+	}
+	return out
+}
+
+var issuerHosts = []string{"op.example.com", "tenant-a.example.com", "login.example.org:8443", "b.tenant.example.net", "Tenant-B.Example.COM"}
+
+// histSlot: the parameters open a multi-issuance history (JWT access tokens are preferred there:
+// only then does one response make two Storage.SigningKey calls)
+func gen(r drv.Rand, i int, nKeys int, histSlot bool) params {
 	p := params{}
+	p.cid = drv.Pick(r, []string{"web", "web", "desk"})
+	p.issuer = opfix.Issuer
+	// every grant x router also under an issuer that is derived from each request
+	if (i/(2*len(flows)))%2 == 1 || r.Chance(1, 4) {
+		p.dynIssuer = true
+		p.issuer = "https://" + drv.Pick(r, issuerHosts)
+	}
 	p.router = opfix.Router(i % 2)
 	p.flow = flows[(i/2)%len(flows)]
 	p.key = (i / (2 * len(flows)) + i) % nKeys
@@ -343,6 +487,9 @@ func gen(r drv.Rand, i int, nKeys int) params {
 		p.clash = true
 	}
 	p.jwtAT = r.Bool()
+	if histSlot && r.Chance(1, 2) {
+		p.jwtAT = true
+	}
 	p.skew = drv.Pick(r, []int64{0, 0, 30, -30})
 	p.idLife = drv.Pick(r, []int64{40, 600, 3600, 3600})
 	p.atLife = drv.Pick(r, []int64{45, 300, 300, 3600})
@@ -359,26 +506,22 @@ func gen(r drv.Rand, i int, nKeys int) params {
 		p.dropAT = []string{drv.Pick(r, []string{"custom:x", "custom:y", "email", "address"})}
 	}
 	p.subject = drv.Pick(r, subjects)
-	switch r.IntN(5) {
-	case 0:
-		p.aud = []string{"https://api.example.com"}
-	case 1:
-		p.aud = []string{"https://api.example.com", "web"}
-	}
+	p.aud = audienceFor(r, p.cid)
 	if r.Chance(3, 4) {
-		p.nonce = drv.Pick(r, []string{"n-0S6_WzA2Mj", "nonce with space", "n\"q"})
+		p.nonce = drv.Pick(r, []string{"n-0S6_WzA2Mj", "nonce with space", "n\"q", "n-0S6_WzA2Mj", " lead", "trail ", "null", "0", "false",
+			strings.Repeat("n1024-", 200), strings.Repeat("N4k.", 1100)}) // also white space at the ends, keyword-like values, longer than 1 KiB / 4 KiB
 	}
 	if r.Chance(1, 3) {
-		p.acr = drv.Pick(r, []string{"urn:acr:mfa", "1"})
+		p.acr = drv.Pick(r, []string{"urn:acr:mfa", "1", "urn:acr:mfa", "0", "null"})
 	}
 	if r.Chance(1, 2) {
 		p.amr = drv.Pick(r, [][]string{{"pwd", "otp"}, {"hwk"}, {}})
 	}
 	p.authAgo = drv.Pick(r, []int64{1, 1, 60, 3000, -1})
-	p.state = drv.Pick(r, []string{"st-1", "xyz.~-_", ""})
+	p.state = drv.Pick(r, []string{"st-1", "xyz.~-_", "", "st-1", "null", "0", " st ", "[]", strings.Repeat("s", 1500)})
 	p.teSubjectType = drv.Pick(r, []string{"refresh", "id", "jwt"})
-	if r.Chance(1, 3) {
-		p.teAudience = []string{"https://api.example.com"}
+	if r.Chance(1, 2) {
+		p.teAudience = audienceFor(r, p.cid)
 	}
 	// flow-specific adjustments so that the flow can succeed
 	switch p.flow {
@@ -414,7 +557,22 @@ func gen(r drv.Rand, i int, nKeys int) params {
 	case "jwt_bearer":
 		p.subject = "pkjwt"
 	case "cc":
-		p.subject = "web"
+		p.subject = p.cid
+	}
+	// claim names: half of the cases carry custom scopes whose claim names are near a registered name
+	if r.Chance(1, 2) {
+		p.customs = customNameScopes(r, p)
+		p.scopes = append(p.scopes, p.customs...)
+		if strings.HasPrefix(p.flow, "te_") && p.narrowed != nil {
+			p.narrowed = append(p.narrowed, p.customs...)
+		}
+		if p.flow == "refresh" && p.narrowed != nil && r.Chance(2, 3) {
+			for _, sc := range p.customs {
+				if !contains(p.narrowed, sc) {
+					p.narrowed = append(p.narrowed, sc)
+				}
+			}
+		}
 	}
 	// verification: mostly the consistent configuration
 	alg := string(allAlgs[p.key])
@@ -522,16 +680,48 @@ func dropFn(drop []string) func([]string) []string {
 // (the signing algorithm; every algorithm of the history when the key will change).
 func setup(p params, sk signState, provAlgs []string) (*refstore.Store, *opfix.Fixture) {
 	st := opfix.NewStd()
-	st.EnableRichClaims() // every standard scope yields a claim group (refstore/ext_c06.go)
+	st.EnableRichClaims()             // every standard scope yields a claim group (refstore/ext_c06.go)
+	st.EnableCustomUserinfoClaims()   // custom:<n> also yields the userinfo claim <n> (ID tokens)
 	applyKey(st, sk)
+	desk := *st.Clients["web"] // the same registration under an id with s and k in it
+	desk.ID, desk.Secret = "desk", "desk-secret"
+	st.Clients["desk"] = &desk
 	for _, s := range subjects {
 		if s != "nobody" && st.Users[s] == nil {
 			st.Users[s] = &refstore.User{Subject: s, Name: "N " + s, Email: "e@" + strings.ReplaceAll(s, ":", ".")}
 		}
 	}
 	st.Users["web"] = &refstore.User{Subject: "web", Name: "Service web", Email: "web@svc.example.com"}
+	st.Users["desk"] = &refstore.User{Subject: "desk", Name: "Service desk", Email: "desk@svc.example.com"}
 	st.Users["pkjwt"] = &refstore.User{Subject: "pkjwt", Name: "Service pkjwt", Email: "pkjwt@svc.example.com"}
-	for _, id := range []string{"web", "pkjwt"} {
+	configure(st, p)
+	var key [32]byte
+	copy(key[:], "c06-provider-crypto-key-32-bytes")
+	o := opfix.Options{Issuer: p.issuer, CryptoKey: key, ProviderOpts: []op.Option{
+		op.WithAccessTokenVerifierOpts(op.WithSupportedAccessTokenSigningAlgorithms(provAlgs...)),
+		op.WithIDTokenHintVerifierOpts(op.WithSupportedIDTokenHintSigningAlgorithms(provAlgs...)),
+	}}
+	var f *opfix.Fixture
+	var err error
+	if p.dynIssuer {
+		// the issuer of every request is https://<Host of that request>
+		f, err = opfix.NewWithIssuer(st, o, op.IssuerFromHost(""))
+	} else {
+		f, err = opfix.New(st, o)
+	}
+	if err != nil {
+		panic(err)
+	}
+	return st, f
+}
+
+var allGrants = []oidc.GrantType{oidc.GrantTypeCode, oidc.GrantTypeRefreshToken, oidc.GrantTypeClientCredentials,
+	oidc.GrantTypeBearer, oidc.GrantTypeTokenExchange, oidc.GrantTypeDeviceCode, oidc.GrantTypeImplicit}
+
+// configure applies the client-side parameters of p to the three clients of the store
+// (also between two issuances of a history).
+func configure(st *refstore.Store, p params) {
+	for _, id := range []string{"web", "desk", "pkjwt"} {
 		c := st.Clients[id]
 		c.ATType = op.AccessTokenTypeBearer
 		if p.jwtAT {
@@ -541,37 +731,26 @@ func setup(p params, sk signState, provAlgs []string) (*refstore.Store, *opfix.F
 		c.IDLife = time.Duration(p.idLife) * time.Second
 		c.ATLife = time.Duration(p.atLife) * time.Second
 		c.IDTokenUserinfo = p.assert
-		c.AllowedScopes = []string{"custom:x", "custom:y"}
+		c.AllowedScopes = append([]string{"custom:x", "custom:y"}, p.customs...)
 		c.RestrictIDScopes = dropFn(p.dropID)
 		c.RestrictATScopes = dropFn(p.dropAT)
-		if !p.refreshGrant {
-			g := []oidc.GrantType{}
-			for _, x := range c.Grants {
-				if x != oidc.GrantTypeRefreshToken {
-					g = append(g, x)
-				}
+		g := []oidc.GrantType{}
+		for _, x := range allGrants {
+			if x != oidc.GrantTypeRefreshToken || p.refreshGrant {
+				g = append(g, x)
 			}
-			c.Grants = g
 		}
+		c.Grants = g
 	}
+	st.SetJWTProfileTokenType(op.AccessTokenTypeBearer)
 	if p.jwtAT {
 		st.SetJWTProfileTokenType(op.AccessTokenTypeJWT)
 	}
-	var key [32]byte
-	copy(key[:], "c06-provider-crypto-key-32-bytes")
-	f, err := opfix.New(st, opfix.Options{CryptoKey: key, ProviderOpts: []op.Option{
-		op.WithAccessTokenVerifierOpts(op.WithSupportedAccessTokenSigningAlgorithms(provAlgs...)),
-		op.WithIDTokenHintVerifierOpts(op.WithSupportedIDTokenHintSigningAlgorithms(provAlgs...)),
-	}})
-	if err != nil {
-		panic(err)
-	}
-	return st, f
 }
 
 // authorize runs /authorize + login + adjustments, returns the auth request id.
 func authorize(p params, st *refstore.Store, f *opfix.Fixture, respType string) string {
-	q := url.Values{"client_id": {"web"}, "redirect_uri": {redirect}, "response_type": {respType},
+	q := url.Values{"client_id": {p.cid}, "redirect_uri": {redirect}, "response_type": {respType},
 		"scope": {strings.Join(p.scopes, " ")}}
 	if p.state != "" {
 		q.Set("state", p.state)
@@ -603,7 +782,7 @@ func fromAuthRequest(res *result, ar *refstore.AuthRequest) {
 	res.rqNonce, res.rqACR, res.rqAMR, res.rqAuth = ar.Nonce, ar.ACR, ar.GetAMR(), unixOrZero(ar.AuthTime)
 }
 
-func basic() []string { return []string{"web", "web-secret"} }
+func basic(p params) []string { return []string{p.cid, p.cid + "-secret"} }
 
 // codeFlow runs a full code flow (not the case under test) and returns the token response.
 func codeFlow(p params, st *refstore.Store, f *opfix.Fixture) *opfix.Resp {
@@ -613,7 +792,7 @@ func codeFlow(p params, st *refstore.Store, f *opfix.Fixture) *opfix.Resp {
 	}
 	cb := f.Callback(p.router, id)
 	code := cb.ResponseParams().Get("code")
-	return f.Post(p.router, "/oauth/token", url.Values{"grant_type": {"authorization_code"}, "code": {code}, "redirect_uri": {redirect}}, basic(), "")
+	return f.Post(p.router, "/oauth/token", url.Values{"grant_type": {"authorization_code"}, "code": {code}, "redirect_uri": {redirect}}, basic(p), "")
 }
 
 func intField(m map[string]any, k string) int64 {
@@ -635,7 +814,7 @@ func fields(s string) []string {
 }
 
 func run(p params, st *refstore.Store, f *opfix.Fixture, arm func()) *result {
-	res := &result{client: "web"}
+	res := &result{client: p.cid}
 	var resp *opfix.Resp
 	bracket := func(call func() *opfix.Resp) {
 		before := tokenIDs(st)
@@ -671,7 +850,7 @@ func run(p params, st *refstore.Store, f *opfix.Fixture, arm func()) *result {
 		res.code = cb.ResponseParams().Get("code")
 		fromAuthRequest(res, st.AuthReqs[id])
 		bracket(func() *opfix.Resp {
-			return f.Post(p.router, "/oauth/token", url.Values{"grant_type": {"authorization_code"}, "code": {res.code}, "redirect_uri": {redirect}}, basic(), "")
+			return f.Post(p.router, "/oauth/token", url.Values{"grant_type": {"authorization_code"}, "code": {res.code}, "redirect_uri": {redirect}}, basic(p), "")
 		})
 		fromJSON()
 	case "implicit_id", "implicit_tok":
@@ -717,10 +896,10 @@ func run(p params, st *refstore.Store, f *opfix.Fixture, arm func()) *result {
 			form.Set("scope", strings.Join(p.narrowed, " "))
 			res.rqScopes = p.narrowed
 		}
-		bracket(func() *opfix.Resp { return f.Post(p.router, "/oauth/token", form, basic(), "") })
+		bracket(func() *opfix.Resp { return f.Post(p.router, "/oauth/token", form, basic(p), "") })
 		fromJSON()
 	case "device":
-		da := f.Post(p.router, "/device_authorization", url.Values{"scope": {strings.Join(p.scopes, " ")}}, basic(), "")
+		da := f.Post(p.router, "/device_authorization", url.Values{"scope": {strings.Join(p.scopes, " ")}}, basic(p), "")
 		dc, uc := da.Str("device_code"), da.Str("user_code")
 		if dc == "" || !st.Approve(uc, p.subject) {
 			return res
@@ -739,29 +918,29 @@ func run(p params, st *refstore.Store, f *opfix.Fixture, arm func()) *result {
 		}
 		res.rqSub, res.rqScopes, res.rqAMR, res.rqAuth = ds.Subject, ds.Scopes, ds.AMR, unixOrZero(ds.AuthTime)
 		res.rqAud = append([]string{}, ds.Audience...)
-		if !contains(res.rqAud, "web") {
-			res.rqAud = append(res.rqAud, "web")
+		if !contains(res.rqAud, p.cid) { // DeviceAuthorizationState.GetAudience: exact comparison
+			res.rqAud = append(res.rqAud, p.cid)
 		}
 		bracket(func() *opfix.Resp {
-			return f.Post(p.router, "/oauth/token", url.Values{"grant_type": {string(oidc.GrantTypeDeviceCode)}, "device_code": {dc}}, basic(), "")
+			return f.Post(p.router, "/oauth/token", url.Values{"grant_type": {string(oidc.GrantTypeDeviceCode)}, "device_code": {dc}}, basic(p), "")
 		})
 		fromJSON()
 	case "cc":
-		res.rqSub, res.rqAud, res.rqScopes = "web", []string{"web"}, p.scopes
+		res.rqSub, res.rqAud, res.rqScopes = p.cid, []string{p.cid}, p.scopes
 		bracket(func() *opfix.Resp {
-			return f.Post(p.router, "/oauth/token", url.Values{"grant_type": {"client_credentials"}, "scope": {strings.Join(p.scopes, " ")}}, basic(), "")
+			return f.Post(p.router, "/oauth/token", url.Values{"grant_type": {"client_credentials"}, "scope": {strings.Join(p.scopes, " ")}}, basic(p), "")
 		})
 		fromJSON()
 	case "jwt_bearer":
 		res.client = "pkjwt"
-		res.rqSub, res.rqAud = "pkjwt", []string{opfix.Issuer}
+		res.rqSub, res.rqAud = "pkjwt", []string{p.issuer}
 		res.rqScopes = []string{}
 		for _, s := range p.scopes {
 			if s == "openid" || s == "profile" || s == "email" {
 				res.rqScopes = append(res.rqScopes, s)
 			}
 		}
-		as := signAssertion(opfix.ECKey("client-pkjwt"), "pkjwt", []string{opfix.Issuer})
+		as := signAssertion(opfix.ECKey("client-pkjwt"), "pkjwt", []string{p.issuer})
 		bracket(func() *opfix.Resp {
 			return f.Post(p.router, "/oauth/token", url.Values{"grant_type": {string(oidc.GrantTypeBearer)}, "assertion": {as}, "scope": {strings.Join(p.scopes, " ")}}, nil, "")
 		})
@@ -795,7 +974,7 @@ func run(p params, st *refstore.Store, f *opfix.Fixture, arm func()) *result {
 			res.rqAud = append(res.rqAud, a)
 		}
 		res.rqSub = p.subject
-		bracket(func() *opfix.Resp { return f.Post(p.router, "/oauth/token", form, basic(), "") })
+		bracket(func() *opfix.Resp { return f.Post(p.router, "/oauth/token", form, basic(p), "") })
 		fromJSON()
 		if p.flow == "te_id" {
 			res.idToken, res.access, res.idAsAccess = res.access, "", true
@@ -810,6 +989,7 @@ type jwsDesc struct {
 	alg, kid, typ string
 	mat          int // -1 = no pool key verifies it
 	payload      map[string]any
+	raw          []byte // the payload bytes
 }
 
 func describeJWS(tok string, pool []any) *jwsDesc {
@@ -826,6 +1006,7 @@ func describeJWS(tok string, pool []any) *jwsDesc {
 		return nil
 	}
 	d := &jwsDesc{mat: -1, payload: opfix.JWTPayload(tok)}
+	d.raw, _ = base64.RawURLEncoding.DecodeString(parts[1])
 	d.alg, _ = hdr["alg"].(string)
 	d.kid, _ = hdr["kid"].(string)
 	d.typ, _ = hdr["typ"].(string)
@@ -899,39 +1080,59 @@ func extras(m map[string]any, known []string) string {
 var idKnown = []string{"iss", "sub", "aud", "azp", "client_id", "exp", "iat", "auth_time", "nonce", "acr", "amr", "at_hash", "c_hash", "name", "email", "email_verified", "preferred_username", "phone_number", "phone_number_verified", "address"}
 var atKnown = []string{"iss", "sub", "aud", "exp", "iat", "nbf", "client_id", "jti"}
 
-func emitIDClaims(m map[string]any) string {
-	ev, _ := m["email_verified"].(bool)
-	pv, _ := m["phone_number_verified"].(bool)
-	// address: the formatted member is modelled; any other member counts as an unknown claim
-	addr := ""
+// The claims are emitted AS THE LIBRARY'S OWN DECODER READS THE PAYLOAD: json.Unmarshal into
+// oidc.IDTokenClaims / oidc.AccessTokenClaims - what rp.VerifyIDToken / op.VerifyAccessToken
+// hand to the caller. encoding/json matches member names case-insensitively (Unicode simple
+// folding) and the last matching key wins, so a custom claim that shadows a registered member
+// shows here as that member's value. Every key of the payload object that is not the exact
+// name of a modelled member is listed as an extra claim.
+func emitIDClaims(d *jwsDesc) string {
+	var c oidc.IDTokenClaims
+	err := json.Unmarshal(d.raw, &c)
 	rest := map[string]any{}
-	for k, v := range m {
+	for k, v := range c.Claims {
 		rest[k] = v
 	}
-	if a, ok := m["address"].(map[string]any); ok {
-		addr, _ = a["formatted"].(string)
+	if err != nil || len(d.raw) == 0 {
+		rest["!undecodable"] = "1"
+	}
+	// address: the formatted member is modelled; any other member counts as an unknown claim
+	addr := ""
+	if c.Address != nil {
+		addr = c.Address.Formatted
+	}
+	if a, ok := c.Claims["address"].(map[string]any); ok {
 		for k, v := range a {
 			if k != "formatted" {
 				rest["address."+k] = v
 			}
 		}
-	} else if m["address"] != nil {
-		rest["address.?"] = m["address"]
+	} else if c.Claims["address"] != nil {
+		rest["address.?"] = c.Claims["address"]
 	}
-	return emit.Ctor("mkID", emit.Str(strClaim(m, "iss")), emit.Str(strClaim(m, "sub")), emit.StrList(audClaim(m)),
-		emit.Str(strClaim(m, "azp")), emit.Str(strClaim(m, "client_id")),
-		emit.Z(intField(m, "exp")), emit.Z(intField(m, "iat")), emit.Z(intField(m, "auth_time")),
-		emit.Str(strClaim(m, "nonce")), emit.Str(strClaim(m, "acr")), emit.StrList(strsClaim(m, "amr")),
-		emit.Str(strClaim(m, "at_hash")), emit.Str(strClaim(m, "c_hash")),
-		emit.Str(strClaim(m, "name")), emit.Str(strClaim(m, "email")), emit.Bool(ev),
-		emit.Str(strClaim(m, "preferred_username")), emit.Str(strClaim(m, "phone_number")), emit.Bool(pv), emit.Str(addr),
+	return emit.Ctor("mkID", emit.Str(c.Issuer), emit.Str(c.Subject), emit.StrList(optStrs(c.Audience)),
+		emit.Str(c.AuthorizedParty), emit.Str(c.ClientID),
+		emit.Z(int64(c.Expiration)), emit.Z(int64(c.IssuedAt)), emit.Z(int64(c.AuthTime)),
+		emit.Str(c.Nonce), emit.Str(c.AuthenticationContextClassReference), emit.StrList(optStrs(c.AuthenticationMethodsReferences)),
+		emit.Str(c.AccessTokenHash), emit.Str(c.CodeHash),
+		emit.Str(c.Name), emit.Str(c.Email), emit.Bool(bool(c.EmailVerified)),
+		emit.Str(c.PreferredUsername), emit.Str(c.PhoneNumber), emit.Bool(c.PhoneNumberVerified), emit.Str(addr),
 		extras(rest, idKnown))
 }
 
-func emitATClaims(m map[string]any) string {
-	return emit.Ctor("mkAT", emit.Str(strClaim(m, "iss")), emit.Str(strClaim(m, "sub")), emit.StrList(audClaim(m)),
-		emit.Z(intField(m, "exp")), emit.Z(intField(m, "iat")), emit.Z(intField(m, "nbf")),
-		emit.Str(strClaim(m, "client_id")), emit.Str(strClaim(m, "jti")), extras(m, atKnown))
+func emitATClaims(d *jwsDesc) string {
+	var c oidc.AccessTokenClaims
+	err := json.Unmarshal(d.raw, &c)
+	rest := map[string]any{}
+	for k, v := range c.Claims {
+		rest[k] = v
+	}
+	if err != nil || len(d.raw) == 0 {
+		rest["!undecodable"] = "1"
+	}
+	return emit.Ctor("mkAT", emit.Str(c.Issuer), emit.Str(c.Subject), emit.StrList(optStrs(c.Audience)),
+		emit.Z(int64(c.Expiration)), emit.Z(int64(c.IssuedAt)), emit.Z(int64(c.NotBefore)),
+		emit.Str(c.ClientID), emit.Str(c.JWTID), extras(rest, atKnown))
 }
 
 func errClass(err error) string {
@@ -1006,6 +1207,47 @@ func optStrs(l []string) []string {
 	return l
 }
 
+// audClass: how the request's audience relates to the client id
+func audClass(aud []string, cid string) string {
+	exact, near := false, false
+	for _, a := range aud {
+		switch {
+		case a == cid:
+			exact = true
+		case strings.EqualFold(strings.TrimRight(strings.TrimSpace(strings.NewReplacer("%20", "", "+", "").Replace(a)), "/"), cid):
+			near = true
+		}
+	}
+	switch {
+	case len(aud) == 0:
+		return "empty"
+	case exact && near:
+		return "client+nearmiss"
+	case near:
+		return "nearmiss"
+	case exact && len(aud) == 1:
+		return "client"
+	case exact:
+		return "client+other"
+	}
+	return "other"
+}
+
+// nameClass: the custom claim names of the request
+func nameClass(customs []string) string {
+	if len(customs) == 0 {
+		return "none"
+	}
+	for _, c := range customs {
+		for i := 0; i < len(c); i++ {
+			if c[i] >= 0x80 {
+				return "unicode"
+			}
+		}
+	}
+	return "ascii"
+}
+
 // ---------------------------------------------------------------- one case
 
 type tally struct{ ambiguous, failedSetup int }
@@ -1018,6 +1260,8 @@ func oneCase(p params, sk signState, st *refstore.Store, f *opfix.Fixture, pool 
 
 func oneCaseRot(p params, sk, sk2 signState, rot int, st *refstore.Store, f *opfix.Fixture, pool []any, hist string, w *emit.Writer, tl *tally) bool {
 	var res *result
+	configure(st, p)          // the client-side parameters of THIS issuance (histories change them between issuances)
+	f.Opts.Issuer = p.issuer  // scheme://host of this case's requests (a dynamic-issuer provider derives the issuer from it)
 	arm := func() {
 		if rot > 0 {
 			st.RotateAfterSigningKeyCalls(rot, func() { applyKey(st, sk2) })
@@ -1040,7 +1284,7 @@ func oneCaseRot(p params, sk, sk2 signState, rot int, st *refstore.Store, f *opf
 		tl.ambiguous++
 		return false
 	}
-	ctx := op.ContextWithIssuer(context.Background(), opfix.Issuer)
+	ctx := op.ContextWithIssuer(context.Background(), p.issuer)
 
 	// ---- input term
 	flowTerm := map[string]string{"implicit_id": "FImplicitID", "implicit_tok": "FImplicitTok", "refresh": "FRefresh", "device": "FDevice",
@@ -1123,7 +1367,7 @@ func oneCaseRot(p params, sk, sk2 signState, rot int, st *refstore.Store, f *opf
 		opts = append(opts, rp.WithACRVerifier(oidc.DefaultACRVerifier(p.vACR)))
 		acrTerm = emit.Some(emit.StrList(p.vACR))
 	}
-	idv := rp.NewIDTokenVerifier(opfix.Issuer, res.client, ks, opts...)
+	idv := rp.NewIDTokenVerifier(p.issuer, res.client, ks, opts...)
 	if !p.vNonce {
 		idv.Nonce = nil
 	}
@@ -1131,8 +1375,8 @@ func oneCaseRot(p params, sk, sk2 signState, rot int, st *refstore.Store, f *opf
 	if p.atAlgs != nil {
 		atOpts = append(atOpts, op.WithSupportedAccessTokenSigningAlgorithms(p.atAlgs...))
 	}
-	atv := op.NewAccessTokenVerifier(opfix.Issuer, ks, atOpts...)
-	verTerm := emit.Ctor("mkVerifier", emit.Str(opfix.Issuer), emit.Str(res.client), emit.Z(p.offset*1e9), emit.Z(0), emit.Z(0),
+	atv := op.NewAccessTokenVerifier(p.issuer, ks, atOpts...)
+	verTerm := emit.Ctor("mkVerifier", emit.Str(p.issuer), emit.Str(res.client), emit.Z(p.offset*1e9), emit.Z(0), emit.Z(0),
 		nonceTerm, acrTerm, emit.StrList(optStrs(p.vAlgs)))
 
 	vnow := time.Now()
@@ -1149,7 +1393,7 @@ func oneCaseRot(p params, sk, sk2 signState, rot int, st *refstore.Store, f *opf
 			if d == nil || d.payload == nil {
 				d = &jwsDesc{mat: -1, payload: map[string]any{}}
 			}
-			idTerm = emit.Some(emit.Pair(emitJWS(d), emitIDClaims(d.payload)))
+			idTerm = emit.Some(emit.Pair(emitJWS(d), emitIDClaims(d)))
 			var err error
 			if pn := drv.Catch(func() {
 				if res.access != "" {
@@ -1171,7 +1415,7 @@ func oneCaseRot(p params, sk, sk2 signState, rot int, st *refstore.Store, f *opf
 				if d == nil || d.payload == nil {
 					d = &jwsDesc{mat: -1, payload: map[string]any{}}
 				}
-				accTerm = emit.Ctor("AJwt", emit.Str(res.access), emitJWS(d), emitATClaims(d.payload))
+				accTerm = emit.Ctor("AJwt", emit.Str(res.access), emitJWS(d), emitATClaims(d))
 				var err error
 				if pn := drv.Catch(func() { _, err = op.VerifyAccessToken[*oidc.AccessTokenClaims](ctx, res.access, atv) }); pn != "" {
 					err = errors.New("panic")
@@ -1212,7 +1456,7 @@ func oneCaseRot(p params, sk, sk2 signState, rot int, st *refstore.Store, f *opf
 
 	var key [32]byte
 	copy(key[:], "c06-provider-crypto-key-32-bytes")
-	caseTerm := emit.Ctor("mkCase", emit.Nat(int(p.router)), emit.Str(opfix.Issuer), flowTerm, clientTerm, keyTerm, key2Term, emit.Nat(rot), keysTerm, userTerm, reqTerm,
+	caseTerm := emit.Ctor("mkCase", emit.Nat(int(p.router)), emit.Str(p.issuer), flowTerm, clientTerm, keyTerm, key2Term, emit.Nat(rot), keysTerm, userTerm, reqTerm,
 		emit.Str(p.state), idsTerm, entTerm, emit.Z(res.t0.UnixNano()), emit.Z(res.t1.UnixNano()), emit.Z(vnow.UnixNano()),
 		verTerm, emit.StrList(optStrs(p.atAlgs)), emit.List(hashes), aesTable(key[:], rawOpaque))
 
@@ -1228,7 +1472,12 @@ func oneCaseRot(p params, sk, sk2 signState, rot int, st *refstore.Store, f *opf
 	if contains(res.rqScopes, "openid") {
 		openid = "1"
 	}
-	tags := []string{"router=" + p.router.String(), "flow=" + p.flow, "at=" + atKind, "alg=" + string(sk.alg), fmt.Sprintf("skew=%d", p.skew),
+	issKind := "static"
+	if p.dynIssuer {
+		issKind = "dynamic"
+	}
+	tags := []string{"client=" + p.cid, "issuer=" + issKind, "aud=" + audClass(res.rqAud, res.client), "claimnames=" + nameClass(p.customs),
+		"router=" + p.router.String(), "flow=" + p.flow, "at=" + atKind, "alg=" + string(sk.alg), fmt.Sprintf("skew=%d", p.skew),
 		fmt.Sprintf("idlife=%d", p.idLife), fmt.Sprintf("atlife=%d", p.atLife), "subject_colon=" + colon, "openid=" + openid,
 		"assert=" + emit.Bool(p.assert), fmt.Sprintf("offset=%d", p.offset), fmt.Sprintf("custom=%v", contains(res.rqScopes, "custom:x") || contains(res.rqScopes, "custom:y")),
 		fmt.Sprintf("keyuse=%q", final.use), fmt.Sprintf("keyset=%d+1+%d", len(final.pre), len(final.post)), fmt.Sprintf("rot=%d", rot), fmt.Sprintf("valgs_default=%v", p.vAlgs == nil), "hist=" + hist, fmt.Sprintf("uiscopes=%d", uiCount(res.rqScopes))}
@@ -1244,7 +1493,8 @@ var sixAlgs = []string{"RS256", "PS256", "ES256", "ES384", "ES512", "EdDSA"}
 // between requests or (in_request) between two SigningKey calls of one request.
 // Every response is verified against the key set served at that time.
 func history(r drv.Rand, p params, sk1 signState, algs []algDef, pool []any, w *emit.Writer, tl *tally) {
-	kind := drv.Pick(r, []string{"same_kid_new_key", "new_kid_new_key", "same_kid_new_alg", "two_providers", "in_request", "in_request"})
+	kind := drv.Pick(r, []string{"same_kid_new_key", "new_kid_new_key", "same_kid_new_alg", "two_providers", "in_request", "in_request", "in_request",
+		"two_issuers", "two_issuers", "omit_after", "omit_after", "omit_after"})
 	other := algs[p.key].mats[1-p.mat]
 	sk2, p2 := sk1, p
 	newAlg := func() {
@@ -1253,6 +1503,74 @@ func history(r drv.Rand, p params, sk1 signState, algs []algDef, pool []any, w *
 		p2.key = j
 	}
 	switch kind {
+	case "two_issuers":
+		// one provider whose issuer is derived from each request: the same flow for host A, host B, host A
+		pA, pB := p, p
+		pA.dynIssuer, pB.dynIssuer = true, true
+		h := r.IntN(len(issuerHosts))
+		pA.issuer = "https://" + issuerHosts[h]
+		pB.issuer = "https://" + issuerHosts[(h+1+r.IntN(len(issuerHosts)-1))%len(issuerHosts)]
+		st, f := setup(pA, sk1, []string{string(sk1.alg)})
+		oneCase(pA, sk1, st, f, pool, kind+".a1", w, tl)
+		oneCase(pB, sk1, st, f, pool, kind+".b1", w, tl)
+		oneCase(pA, sk1, st, f, pool, kind+".a2", w, tl)
+		return
+	case "omit_after":
+		// one provider: a request that carries every optional field, then a request (another flow,
+		// maybe the other client, the same subject) that OMITS them, then the first one again
+		rich, bare := p, p
+		if rich.nonce == "" {
+			rich.nonce = "n-rich"
+		}
+		if rich.acr == "" {
+			rich.acr = "urn:acr:mfa"
+		}
+		if len(rich.amr) == 0 {
+			rich.amr = []string{"pwd", "otp"}
+		}
+		if len(rich.aud) == 0 {
+			rich.aud = []string{"https://api.example.com", rich.cid}
+		}
+		if rich.authAgo < 0 {
+			rich.authAgo = 60
+		}
+		bareFlows := []string{"code", "implicit_id", "device", "cc", "code", "device"}
+		if p.refreshGrant {
+			bareFlows = append(bareFlows, "refresh", "te_id", "te_access")
+		}
+		bare.flow = drv.Pick(r, bareFlows)
+		bare.nonce, bare.acr, bare.amr, bare.aud, bare.state, bare.authAgo = "", "", []string{}, nil, "", -1
+		bare.vACR, bare.customs, bare.narrowed, bare.teAudience = nil, nil, nil, nil
+		bare.scopes = []string{"openid"}
+		switch bare.flow {
+		case "implicit_id":
+			bare.nonce = "n-bare"
+		case "refresh", "te_id", "te_access":
+			bare.scopes = []string{"openid", "offline_access"}
+		case "cc":
+			bare.subject = bare.cid
+		}
+		if r.Chance(1, 3) && bare.flow != "cc" {
+			bare.cid = map[string]string{"web": "desk", "desk": "web"}[bare.cid]
+		}
+		if r.Chance(1, 3) {
+			bare.scopes = append(bare.scopes, "custom:tenant") // another custom claim than the rich request's
+			bare.customs = []string{"custom:tenant"}
+		}
+		// ... and the rich request once more for the OTHER client (same subject, same scopes)
+		richOther := rich
+		richOther.cid = map[string]string{"web": "desk", "desk": "web"}[rich.cid]
+		if richOther.flow == "cc" {
+			richOther.subject = richOther.cid
+		}
+		st, f := setup(rich, sk1, []string{string(sk1.alg)})
+		oneCase(rich, sk1, st, f, pool, kind+".rich1", w, tl)
+		oneCase(bare, sk1, st, f, pool, kind+".bare", w, tl)
+		if r.Bool() {
+			oneCase(richOther, sk1, st, f, pool, kind+".rich_other_client", w, tl)
+		}
+		oneCase(rich, sk1, st, f, pool, kind+".rich2", w, tl)
+		return
 	case "same_kid_new_key", "two_providers":
 		sk2.m, sk2.pre, sk2.post = other, nil, nil // the old public key is withdrawn
 	case "new_kid_new_key":
@@ -1308,6 +1626,8 @@ func history(r drv.Rand, p params, sk1 signState, algs []algDef, pool []any, w *
 	}
 }
 
+func sk0(p params, algs []algDef) signState { return stateOf(p, algs) }
+
 func main() {
 	cfg := drv.Parse()
 	r := drv.NewRand(cfg.Seed)
@@ -1315,18 +1635,24 @@ func main() {
 	algs, pool := keyPool()
 	n := cfg.Count(360, 6000)
 	tl := &tally{}
+	// plain slots and history slots count separately, so that router x flow (x static / dynamic
+	// issuer) cycle completely within each kind
+	plain, hist := 0, 0
 	for i, tries := 0, 0; w.Len() < n && tries < 3*n+100; i, tries = i+1, tries+1 {
-		p := gen(r, i, len(algs))
-		sk := stateOf(p, algs)
-		if i%5 != 4 {
+		if i%4 != 3 {
+			p := gen(r, plain, len(algs), false)
+			plain++
+			sk := stateOf(p, algs)
 			st, f := setup(p, sk, []string{string(sk.alg)})
 			oneCase(p, sk, st, f, pool, "none", w, tl)
 			continue
 		}
-		history(r, p, sk, algs, pool, w, tl)
+		p := gen(r, hist, len(algs), true)
+		hist++
+		history(r, p, sk0(p, algs), algs, pool, w, tl)
 	}
 	err := w.Close(emit.Meta{Property: "C06", Tier: cfg.Tier, Seed: cfg.Seed,
-		Rule: "one case = one token response: a complete flow (code, implicit id_token / id_token token, refresh, device, client_credentials, jwt-bearer, token-exchange for access / refresh / ID token) run over HTTP recorders against the Provider or LegacyServer router on refstore; flow and router cycle deterministically, the rest is drawn from the PRNG: signing key (RS256, PS256, ES256, ES384, ES512, EdDSA; two key materials per algorithm under the SAME kid, kid shared across algorithms in half of the cases; published with use sig or without use, with further keys before / after it: previous key, an enc key and a key of another type under the same kid, rarely a clashing signature key), access-token type, client clock skew (0, +-30 s), ID/access-token lifetimes, scope set (15 base sets plus a random extra standard scope: with/without openid, every subset pattern of profile/email/phone/address, offline_access, custom:x/y; the storage serves a distinct claim group per standard scope and marks userinfo scopes that reach the private-claims lookup), restricted scopes, userinfo-assertion flag, subject (also with ':' and unknown to the user store), audience, nonce/acr/amr/auth time, and the verifier configuration (consistent in most cases; default algorithm list, short offset against a negative skew as inconsistent ones). Every fifth slot is a multi-issuance history in one store/provider (tag hist=): issue, replace the storage's signing key (same kid new material and back; new kid new material with the old key still published; same kid other algorithm), issue again - or two providers alive at once with the same kid and different key material, issuing alternately, or the signing key replaced after the 1st / 2nd Storage.SigningKey call WITHIN the request under test (new kid, mostly another hash family, both keys published); each response is a case of its own whose input names the key current at that issuance and which is verified against the /keys document served at that time. Every case issues tokens, so non-trivial = all; distinct = distinct (input, model path class: flow x token kind x refresh token x verdicts).",
+		Rule: "one case = one token response: a complete flow (code, implicit id_token / id_token token, refresh, device, client_credentials, jwt-bearer, token-exchange for access / refresh / ID token) run over HTTP recorders against the Provider or LegacyServer router on refstore; flow and router cycle deterministically, the rest is drawn from the PRNG: signing key (RS256, PS256, ES256, ES384, ES512, EdDSA; two key materials per algorithm under the SAME kid, kid shared across algorithms in half of the cases; published with use sig or without use, with further keys before / after it: previous key, an enc key and a key of another type under the same kid, rarely a clashing signature key), access-token type, client clock skew (0, +-30 s), ID/access-token lifetimes, scope set (15 base sets plus a random extra standard scope: with/without openid, every subset pattern of profile/email/phone/address, offline_access, custom:x/y; the storage serves a distinct claim group per standard scope and marks userinfo scopes that reach the private-claims lookup), restricted scopes, userinfo-assertion flag, subject (also with ':', unknown to the user store, case / white-space neighbours of other subjects, keyword-like values), client (web, or the same registration as desk), issuer (static, or - every other block of all flows x routers plus a quarter of the rest - derived from each request's Host by op.IssuerFromHost, five hosts incl. a port and mixed case), the storage-defined audience (default, empty, the exact client id, near misses of the client id: case variants, U+017F / U+212A fold variants, white space / %20 / + / tab / LF around it, trailing slash; other values; several; for authorization, device and token-exchange requests), custom claim names (half of the cases add 1-2 scopes custom:<n>, which the storage turns into the private claim <n> of a JWT access token and the userinfo claim <n> of an ID token: exact names, ASCII-case variants and U+017F / U+212A fold variants of the registered members this case's tokens are certain to carry, near misses that fold to no member, variants of sid / scope), nonce/acr/state (also white space at the ends, null / 0 / false / [], longer than 1 KiB and 4 KiB), amr, auth time, and the verifier configuration (consistent in most cases; default algorithm list, short offset against a negative skew as inconsistent ones). Every fourth slot is a multi-issuance history in one store/provider (tag hist=): issue, replace the storage's signing key (same kid new material and back; new kid new material with the old key still published; same kid other algorithm), issue again - or two providers alive at once with the same kid and different key material, issuing alternately, or the signing key replaced after the 1st / 2nd Storage.SigningKey call WITHIN the request under test (new kid, mostly another hash family, both keys published), or one dynamic-issuer provider serving host A, host B, host A (two_issuers), or one provider serving a request that carries every optional field (nonce, acr, amr, audience, auth time, custom claims), then a request of another flow / maybe the other client for the same subject that OMITS them, then the rich request for the other client, then the first again (omit_after); each response is a case of its own whose input names the key current at that issuance and which is verified against the /keys document served at that time. Claims are compared as the library's own decoder reads the signed payload (json.Unmarshal into oidc.IDTokenClaims / oidc.AccessTokenClaims). Every case issues tokens, so non-trivial = all; distinct = distinct (input, model path class: flow x token kind x refresh token x verdicts).",
 		Extra: map[string]any{"clock_ambiguous": tl.ambiguous, "setup_failed": tl.failedSetup}})
 	if err != nil {
 		fmt.Fprintln(os.Stderr, err)
